@@ -23,6 +23,31 @@ class UnhashableCallable:
         return self is other
 
 
+def _passthrough(fn):
+    """an ordinary pass-through decorator (call counter / timer / logger style): `inspect.signature` of the result is the
+    wrapped function's, and it is callable with exactly the wrapped function's arguments"""
+    @functools.wraps(fn)
+    def wrapper(*args, **kwargs):
+        return fn(*args, **kwargs)
+    return wrapper
+
+
+@_passthrough
+def decorated_one(x):
+    return 0.0
+
+
+@_passthrough
+def decorated_two(x, y):
+    return 0.0
+
+
+@_passthrough
+@_passthrough
+def decorated_twice(x):
+    return 0.0
+
+
 def make_obj(L, cls):
     np = L['np']
     k = L['kinds']
@@ -165,6 +190,7 @@ def values_for(L, setter, obj):
             L['Node'](name=1, type='TERMINAL', value=np.zeros((1, 1))), L['Agent'](), (lambda x: 0.0), (lambda: 0.0), (lambda x, y: 0.0),
             (lambda x, y=2: 0.0), (lambda x, *, shift=0: 0.0), functools.partial((lambda x, y: 0.0), y=3), (lambda *a: 0.0),
             CallableObject(), CallableObject().method, functools.partial((lambda a, x: 0.0), 1.0), UnhashableCallable(),
+            decorated_one, decorated_two, decorated_twice, functools.lru_cache(maxsize=None)(lambda x: 0.0),
             Unbuilt(), L['kinds']['PSO'](), L['Function'](pointer=lambda x: 0.0)]
     for g in setter['guards']:
         c = g['cdesc']
@@ -332,7 +358,7 @@ def check(ctx):
         # Function / WeightedFunction constructors route the callable through the same setter: same outcome, and an
         # accepted callable (whatever its kind: function, lambda, callable object, bound method, partial) is stored
         for v in [(lambda x: 0.0), CallableObject(), CallableObject().method, functools.partial((lambda a, x: 0.0), 1.0), UnhashableCallable(),
-                  (lambda: 0.0), (lambda x, y: 0.0), (lambda x, y=2: 0.0), 3, None]:
+                  decorated_one, decorated_two, decorated_twice, (lambda: 0.0), (lambda x, y: 0.0), (lambda x, y=2: 0.0), 3, None]:
             rp = dict(how='function-ctor', value=repr(v)[:60])
             probe = L['Function'](pointer=lambda x: 0.0)
             try:
